@@ -7,7 +7,7 @@ From RecordUpdate Require Import RecordSet.
 (* Model.ProxyCheck (the correspondence checker used by the case shards) is imported so that it is built with this file *)
 From MV Require Import Model.ProxyCheck.
 From MV Require Import Model.Proxy Model.ProxySpec Proofs.ProxyReach Proofs.ProxyFamily Proofs.ProxyFam Proofs.ProxyRefute
-  Proofs.ProxyThm Proofs.ProxyFilters Proofs.ProxyGen Proofs.ProxySrc Gen.ProxyTokens.
+  Proofs.ProxyThm Proofs.ProxySndErr Proofs.ProxyFilters Proofs.ProxyGen Proofs.ProxySrc Gen.ProxyTokens.
 Import ListNotations RecordSetNotations.
 Open Scope Z_scope.
 
@@ -104,6 +104,24 @@ Example c14_stale_body_after_hijack :
   g_mixed (summ src_tree cfg_stale sched_stale) = false /\ g_reply_kind (summ src_tree cfg_stale sched_stale) = Some (KHijack, 503) /\
   g_ended (summ src_tree cfg_stale sched_stale) = true.
 Proof. exact witness_stale_body. Qed.
+
+(* every filter is destroyed exactly once (streamFilterChain.destroy() runs inside cleanStream): at most once for EVERY
+   configuration and schedule (c03_clean_once: the destroy round is emitted together with the gauge decrement), and once at
+   quiescence over the family - also when the downstream sender refuses the reply (h / d / t: errors from AppendHeaders /
+   AppendData / AppendTrailers) *)
+Theorem c14_filters_destroyed_once_with_sender_errors_family : forall c, In c family -> forall h d t sched, Forall allowed sched ->
+  let g := summ proxy_src (with_snd_err c h d t) sched in
+  (g_destroy g <= 1)%nat /\
+  (quiescent (final proxy_src (with_snd_err c h d t) sched) = true -> no_defect (final proxy_src (with_snd_err c h d t) sched) = true ->
+   cleaned (final proxy_src (with_snd_err c h d t) sched) = true /\ g_clean g = 1%nat).
+Proof. exact c14_destroy_snd_err. Qed.
+Print Assumptions c14_filters_destroyed_once_with_sender_errors_family.
+(* with resetStream()-and-return on a refused header (switch set back) the filters of a header-only reply are never destroyed *)
+Example c14_sender_error_filters_never_destroyed :
+  quiescent (final src_append_error_resets cfg_hdr_refused (sched_answered false)) = true /\
+  g_destroy (summ src_append_error_resets cfg_hdr_refused (sched_answered false)) = 0%nat /\
+  g_destroy (summ src_tree cfg_hdr_refused (sched_answered false)) = 1%nat.
+Proof. exact witness_sender_error_no_destroy. Qed.
 
 Example c14_example :
   let c := mk false false false RouteForward 2 true 0 [] false 0
